@@ -3,11 +3,15 @@
 
 Every `macro_rules!` arm becomes (pattern, body):
   pattern : the parameters in order (`expr` / `ident` fragments, literal marker tokens such as
-            `@of_type`, an optional trailing repetition `$(, $X:expr)*`) and whether a trailing
-            comma is accepted;
+            `@of_type` or the delimiters `[` `]`, an optional trailing repetition `$(, $X:expr)*`)
+            and whether a trailing comma is accepted. An arm with an OPTIONAL group
+            `$( , $X:expr )?` is emitted as two arms - without and with the group - and every
+            `$( … $X … )?` of the body is instantiated accordingly (dropped / kept);
   body    : a term of a small action language (MExpr) for the recognised idioms - constructor
             calls, builder calls, `register` in the default / a named registry followed by
-            `.map(|()| handle)`, nested macro invocations. Anything else becomes `.unknown "<tokens>"`,
+            `.map(|()| handle)`, nested macro invocations (`name!(…)` or `$crate::name!(…)`; an argument may
+            be a marker token, a `[ … ]` token group or a constructor expression). Anything else becomes
+            `.unknown "<tokens>"`,
             which makes the Lean theorem about that arm fail.
 """
 import os, re, sys
@@ -43,6 +47,91 @@ def norm(s):
     return ' '.join(s.replace('$ ', '$').split())
 
 
+def closing(s, i):
+    """index of the delimiter closing the one at s[i], or -1"""
+    pairs = {'(': ')', '[': ']', '{': '}'}
+    stack = []
+    for j in range(i, len(s)):
+        ch = s[j]
+        if ch in pairs:
+            stack.append(pairs[ch])
+        elif ch in ')]}':
+            if not stack or stack.pop() != ch:
+                return -1
+            if not stack:
+                return j
+    return -1
+
+
+def balanced(s):
+    stack = []
+    pairs = {'(': ')', '[': ']', '{': '}'}
+    for ch in s:
+        if ch in pairs:
+            stack.append(pairs[ch])
+        elif ch in ')]}':
+            if not stack or stack.pop() != ch:
+                return False
+    return not stack
+
+
+OPT_GROUP = re.compile(r'\$\(([^()]*)\)\s*\?')
+
+
+def optional_variants(p):
+    """`$( … $X:frag … )?` groups of a pattern (other than the trailing-comma group `$(,)?`): every choice of
+    present / absent groups is one variant. Returns [(pattern text without optional groups, {X: present})],
+    the variant without any group first."""
+    raw, p = p, norm(p)
+    groups = [m for m in OPT_GROUP.finditer(p) if re.search(r'\$\s*\w+\s*:\s*\w+', m.group(1))]
+    if not groups:
+        return [(raw, {})]
+    out = []
+    for mask in range(1 << len(groups)):
+        txt, last, present = '', 0, {}
+        for gi, m in enumerate(groups):
+            on = bool(mask >> gi & 1)
+            txt += p[last:m.start()] + (' ' + m.group(1) + ' ' if on else ' ')
+            last = m.end()
+            for v in re.findall(r'\$\s*(\w+)\s*:\s*\w+', m.group(1)):
+                present[v] = on
+        out.append((txt + p[last:], present))
+    return out
+
+
+def instantiate_optionals(b, present):
+    """the body of one variant: `$( … )?` mentioning only present variables is replaced by its contents, one
+    mentioning only absent variables is dropped. Returns None when an absent variable is still mentioned afterwards
+    (rustc rejects such a body) or a group mixes present and absent variables."""
+    if not present:
+        return b
+    out, i = '', 0
+    while True:
+        j = b.find('$(', i)
+        if j < 0:
+            out += b[i:]
+            break
+        k = closing(b, j + 1)
+        mq = re.compile(r'\s*\?').match(b, k + 1) if k >= 0 else None
+        if k < 0 or not mq:
+            out += b[i:j + 2]
+            i = j + 2
+            continue
+        inner = b[j + 2:k]
+        used = set(re.findall(r'\$(\w+)', inner)) & set(present)
+        if used and all(present[v] for v in used):
+            out += b[i:j] + inner
+        elif used and not any(present[v] for v in used):
+            out += b[i:j]
+        else:
+            out += b[i:mq.end()]
+        i = mq.end()
+    for v, on in present.items():
+        if not on and re.search(r'\$%s\b' % re.escape(v), out):
+            return None
+    return out
+
+
 def parse_pattern(p):
     p = norm(p)
     p = re.sub(r'\$\s*(\w+)\s*:\s*(\w+)', r'$\1:\2', p)
@@ -61,41 +150,93 @@ def parse_pattern(p):
         rep = ('tail', m.group(1))
         p = p[:m.start()].strip()
     params = []
-    for part in split_top(p):
-        toks = part.split()
-        for t in toks:
-            mm = re.fullmatch(r'\$(\w+):(\w+)', t)
-            if mm:
-                params.append(('.%s' % ('expr' if mm.group(2) == 'expr' else 'ident'), mm.group(1)))
-            else:
-                params.append(('.lit', t))
+    # commas only separate parameters; `[` and `]` are literal tokens of their own
+    for t in p.replace(',', ' ').replace('[', ' [ ').replace(']', ' ] ').split():
+        mm = re.fullmatch(r'\$(\w+):(\w+)', t)
+        if mm:
+            params.append(('.%s' % ('expr' if mm.group(2) == 'expr' else 'ident'), mm.group(1)))
+        else:
+            params.append(('.lit', t))
     return params, rep, trailing
 
 
-def parse_expr(e):
-    """an argument expression inside a body: `$X`, a bare identifier, or a nested macro call"""
+def match_call(e):
+    """`name!( … )` or `$crate::name!( … )` where the parenthesis opened after `!` closes at the very end:
+    (name, argument text), else None"""
+    m = re.match(r'(?:\$crate::)?(\w+)!\s*\(', e)
+    if not m or closing(e, m.end() - 1) != len(e) - 1:
+        return None
+    return m.group(1), e[m.end():-1]
+
+
+def parse_construct(e):
+    """`$crate::<Type or $TYPE>::with_opts(args).unwrap()` / `…::new(args).unwrap()` - the constructor expression"""
+    m = re.fullmatch(r'\$crate::(\$?\w+)::(with_opts|new)\((.*)\)\s*\.unwrap\(\)', e, re.S)
+    if not m or not balanced(m.group(3)):
+        return None
+    ty = m.group(1)
+    ty_e = '(.var %s)' % lean_str(ty[1:]) if ty.startswith('$') else '(.ident %s)' % lean_str(ty)
+    args = [parse_expr(a) for a in split_top(m.group(3))]
+    return '(.construct %s [%s])' % (ty_e, ', '.join(args))
+
+
+def parse_metric(e):
+    """the metric a body registers: a constructor expression, or a fragment `$METRIC`"""
     e = e.strip()
     m = re.fullmatch(r'\$(\w+)', e)
     if m:
         return '(.var %s)' % lean_str(m.group(1))
-    m = re.fullmatch(r'(\w+)!\s*\((.*)\)', e, re.S)
+    return parse_construct(e)
+
+
+def parse_expr(e):
+    """an argument expression inside a body: `$X`, a bare identifier, a nested macro call or a constructor expression"""
+    e = e.strip()
+    m = re.fullmatch(r'\$(\w+)', e)
     if m:
-        return parse_call(m.group(1), m.group(2))
+        return '(.var %s)' % lean_str(m.group(1))
+    mc = match_call(e)
+    if mc:
+        return parse_call(*mc)
     m = re.fullmatch(r'[A-Za-z_]\w*', e)
     if m:
         return '(.ident %s)' % lean_str(e)
+    c = parse_construct(e)
+    if c:
+        return c
     return '(.unknown %s)' % lean_str(norm(e))
+
+
+def parse_call_part(a):
+    """one comma-separated part of an invocation: marker tokens `@word` and `[ … ]` token groups (the delimiters become
+    literal tokens, the contents are parts again), then at most one expression. A lone `[ … ]` without a marker before
+    or tokens after it stays an (array) expression."""
+    out, s, marked = [], a.strip(), False
+    while s:
+        m = re.match(r'@\w+', s)
+        if m:
+            out.append('(.lit %s)' % lean_str(m.group(0)))
+            s, marked = s[m.end():].lstrip(), True
+            continue
+        if s[0] == '[':
+            k = closing(s, 0)
+            rest = s[k + 1:].lstrip() if k >= 0 else ''
+            if k >= 0 and (marked or rest) and not rest.startswith(('.', '?', '[')):
+                out.append('(.lit "[")')
+                for x in split_top(s[1:k]):
+                    out += parse_call_part(x)
+                out.append('(.lit "]")')
+                s, marked = rest, True
+                continue
+        out.append(parse_expr(s))
+        break
+    return out
 
 
 def parse_call(name, args):
     parts = []
     for a in split_top(args):
-        toks = a.split()
-        if len(toks) >= 2 and toks[0].startswith('@'):
-            parts.append('(.lit %s)' % lean_str(toks[0]))
-            parts.append(parse_expr(' '.join(toks[1:])))
-        else:
-            parts.append(parse_expr(a))
+        parts += parse_call_part(a)
     return '(.call %s [%s])' % (lean_str(name), ', '.join(parts))
 
 
@@ -118,11 +259,11 @@ def parse_hopts_chain(b):
             name, e = None, st
         if term is None:
             m0 = re.fullmatch(r'\$crate::HistogramOpts::new\(\$(\w+), \$(\w+)\)', e)
-            m1 = re.fullmatch(r'(\w+)!\s*\((.*)\)', e, re.S)
+            m1 = match_call(e)
             if m0:
                 term = '(.newHistOpts (.var %s) (.var %s))' % (lean_str(m0.group(1)), lean_str(m0.group(2)))
             elif m1 and not last:
-                term = parse_call(m1.group(1), m1.group(2))
+                term = parse_call(*m1)
             else:
                 return None
         else:
@@ -146,9 +287,9 @@ def parse_body(b):
     if mm is not None:
         return mm
     # a bare nested macro call
-    m = re.fullmatch(r'(\w+)!\s*\((.*)\)', b, re.S)
-    if m:
-        return parse_call(m.group(1), m.group(2))
+    mc = match_call(b)
+    if mc:
+        return parse_call(*mc)
     m = re.fullmatch(r'\$crate::HistogramOpts::new\(\$(\w+), \$(\w+)\)', b)
     if m:
         return '(.newHistOpts (.var %s) (.var %s))' % (lean_str(m.group(1)), lean_str(m.group(2)))
@@ -156,28 +297,22 @@ def parse_body(b):
     if m:
         ctor = '.setBuckets' if m.group(3) == 'buckets' else '.setConstLabels'
         return '(%s %s (.var %s))' % (ctor, parse_call(m.group(1), m.group(2)), lean_str(m.group(4)))
-    # construct + register + map to the handle
-    m = re.fullmatch(r'let (\w+) = \$crate::(\$?\w+)::(with_opts|new)\((.*?)\)\.unwrap\(\); (.*?) \.register\(Box::new\(\1\.clone\(\)\)\) \.map\(\|\(\)\| \1\)'.replace(r' \.', r'\s*\.'), b)
+    # build + register a boxed clone + map back to the handle: `let m = E; R.register(Box::new(m.clone())).map(|()| m)`
+    # with E a constructor expression or a fragment `$METRIC` (bound to one by the invocation), R a fragment `$REGISTRY`
+    m = re.fullmatch(r'let (\w+) = (.+?); (.+?)\s*\.register\(Box::new\(\1\.clone\(\)\)\)\s*\.map\(\|\(\)\| \1\)', b)
     if m:
-        ty = m.group(2)
-        ty_e = '(.var %s)' % lean_str(ty[1:]) if ty.startswith('$') else '(.ident %s)' % lean_str(ty)
-        args = [parse_expr(a) for a in split_top(m.group(4))]
-        ctor = '(.construct %s [%s])' % (ty_e, ', '.join(args))
-        target = m.group(5).strip()
-        if target == '$crate::register(Box::new(%s.clone())).map(|()| %s)' % (m.group(1), m.group(1)):
-            pass
-        if target == '$crate':
-            return '(.unknown %s)' % lean_str(b)
-        mt = re.fullmatch(r'\$(\w+)', target)
-        if mt:
-            return '(.registerIn (.var %s) %s)' % (lean_str(mt.group(1)), ctor)
+        metric = parse_metric(m.group(2))
+        mt = re.fullmatch(r'\$(\w+)', m.group(3).strip())
+        if metric and mt:
+            return '(.registerIn (.var %s) %s)' % (lean_str(mt.group(1)), metric)
         return '(.unknown %s)' % lean_str(b)
-    m = re.fullmatch(r'let (\w+) = \$crate::(\$?\w+)::(with_opts|new)\((.*?)\)\.unwrap\(\); \$crate::register\(Box::new\(\1\.clone\(\)\)\)\.map\(\|\(\)\| \1\)', b)
+    # the same in the default registry: `$crate::register(Box::new(m.clone())).map(|()| m)`
+    m = re.fullmatch(r'let (\w+) = (.+?); \$crate::register\(Box::new\(\1\.clone\(\)\)\)\s*\.map\(\|\(\)\| \1\)', b)
     if m:
-        ty = m.group(2)
-        ty_e = '(.var %s)' % lean_str(ty[1:]) if ty.startswith('$') else '(.ident %s)' % lean_str(ty)
-        args = [parse_expr(a) for a in split_top(m.group(4))]
-        return '(.registerDefault (.construct %s [%s]))' % (ty_e, ', '.join(args))
+        metric = parse_metric(m.group(2))
+        if metric:
+            return '(.registerDefault %s)' % metric
+        return '(.unknown %s)' % lean_str(b)
     # opts!: Opts::new + extend every given map in order (later maps override earlier ones)
     m = re.fullmatch(r'use std::collections::HashMap; let opts = \$crate::Opts::new\(\$(\w+), \$(\w+)\); let lbs = HashMap::<String, String>::new\(\); '
                      r'\$\( #\[allow\(clippy::redundant_locals\)\] let mut lbs = lbs; lbs\.extend\(\$(\w+)\.iter\(\)\.map\(\|\(k, v\)\| \(\(\*k\)\.into\(\), \(\*v\)\.into\(\)\)\)\); \)\* opts\.const_labels\(lbs\)', b)
@@ -257,15 +392,18 @@ def main(repo, out):
     for name, exported, arms in macros:
         arm_rows = []
         for pat, body in arms:
-            params, rep, trailing = parse_pattern(pat)
-            ps = ', '.join('(%s, %s)' % (k, lean_str(n)) for k, n in params)
-            if rep is None:
-                rp = '.none'
-            elif rep[0] == 'tail':
-                rp = '(.tail %s)' % lean_str(rep[1])
-            else:
-                rp = '(.pairs %s %s)' % (lean_str(rep[1]), lean_str(rep[2]))
-            arm_rows.append('    ⟨[%s], %s, %s, %s⟩' % (ps, rp, 'true' if trailing else 'false', parse_body(body)))
+            for pat_v, present in optional_variants(pat):
+                params, rep, trailing = parse_pattern(pat_v)
+                ps = ', '.join('(%s, %s)' % (k, lean_str(n)) for k, n in params)
+                if rep is None:
+                    rp = '.none'
+                elif rep[0] == 'tail':
+                    rp = '(.tail %s)' % lean_str(rep[1])
+                else:
+                    rp = '(.pairs %s %s)' % (lean_str(rep[1]), lean_str(rep[2]))
+                body_v = instantiate_optionals(norm(body), present) if present else body
+                term = parse_body(body_v) if body_v is not None else '(.unknown %s)' % lean_str(norm(body))
+                arm_rows.append('    ⟨[%s], %s, %s, %s⟩' % (ps, rp, 'true' if trailing else 'false', term))
         rows.append('  ⟨%s, %s, [\n%s]⟩' % (lean_str(name), 'true' if exported else 'false', ',\n'.join(arm_rows)))
     L.append(',\n'.join(rows))
     L += [']', '', 'end Prom.Gen', '']
